@@ -1956,6 +1956,9 @@ impl SourceTextModule {
             .vm
             .pop_frame()
             .js_expect("There should be a call frame")?;
+        // The frame only served to instantiate the declarations: drop `this`, the function slot
+        // and the registers that `push_frame_with_stack` pushed (as `SyntheticModule` does).
+        context.vm.stack.truncate_to_frame(&frame);
 
         let env = frame
             .environments
